@@ -763,6 +763,60 @@ func (e *Env) call(n ECall) TVal {
 		}
 		s, k := e.tr(n.Args[0]), e.tr(n.Args[1])
 		return TVal{T: Term{app("sq_snoc_"+s.T.Sort, s.T.S, k.T.S), s.T.Sort}, Ty: s.Ty}
+	case "local":
+		// local(name): the current value of a local variable of the calling function (scoped requires only)
+		if !argc(1) {
+			return TVal{}
+		}
+		if id, ok := n.Args[0].(EIdent); ok {
+			sub := e.sub()
+			sub.useCells = true
+			sub.binds = map[string]TVal{}
+			sub.params = map[string]TVal{}
+			sub.calleeFn = nil
+			sub.errs = nil
+			r := sub.ident(id.Name)
+			if len(sub.errs) > 0 {
+				return e.errf("local(%s): %s", id.Name, strings.Join(sub.errs, "; "))
+			}
+			return r
+		}
+		return e.errf("local needs an identifier")
+	case "pristine":
+		// pristine(v): v is an interface holding a pointer; what it points to is the zero value of its type
+		// (a decoder writes into it: nothing of an earlier use may be left)
+		if !argc(1) {
+			return TVal{}
+		}
+		{
+			a := e.tr(n.Args[0])
+			for _, key := range vc.sorts.anyOrder {
+				c := vc.sorts.anyCtors[key]
+				pre := "(" + c.name + " "
+				if !strings.HasPrefix(a.T.S, pre) || !strings.HasSuffix(a.T.S, ")") {
+					continue
+				}
+				pt, ok := c.typ.Underlying().(*types.Pointer)
+				if !ok {
+					return e.errf("pristine: %s is not a pointer", types.TypeString(c.typ, nil))
+				}
+				if _, isIface := pt.Elem().Underlying().(*types.Interface); isIface {
+					// decoding into an interface variable: its previous content is only a type hint
+					return TVal{T: Term{"true", SBool}}
+				}
+				ref := Term{a.T.S[len(pre) : len(a.T.S)-1], SRef}
+				es := vc.sorts.SortOf(pt.Elem())
+				var cur Term
+				if _, isS := vc.sorts.structs[es]; isS {
+					cur = vc.readStruct(e.st, ref, es)
+				} else {
+					hn, hs := vc.boxHeap(es)
+					cur = Term{app("select", vc.heapGet(e.st, hn, hs).S, ref.S), es}
+				}
+				return TVal{T: Term{app("=", cur.S, vc.sorts.Zero(es).S), SBool}}
+			}
+			return e.errf("pristine: the target %s is not a statically known pointer", a.T.S)
+		}
 	case "concat":
 		if !argc(2) {
 			return TVal{}
